@@ -440,6 +440,25 @@ class Checker:
                 self.fail('cached-lookup', 'looking an object that is already in the identity map (%s) up by key through %s gives %s; it is stored as %s'
                           % ('known by primary key only' if how == 'seed' else 'loaded', self.name(c), got, self.name(r)), det, got, exp)
 
+    def two_variables(self, c1, c2, as_string):
+        """two loop variables over entities of ONE table in one query: each carries its own discriminator criteria (qualified by its alias)"""
+        h, E, w = self.h, self.E, self.w
+        root = h['root'][c1]
+        src = '(x.id, y.id) for x in C1 for y in C2 if x.a <= y.a'
+        env = {'C1': E[c1], 'C2': E[c2], 'select': select}
+        det = ['two-variables', src, self.name(c1), self.name(c2), 'string' if as_string else 'generator']
+        exp = sorted((p1, p2) for p1 in self.extent(c1) for p2 in self.extent(c2) if w.a[(root, p1)] <= w.a[(root, p2)])
+        self.ctx.case(['two-variables', h['bases'], h['mode']] + det, kind='oracle:set:two-variables')
+        try:
+            rows = (select(src, env) if as_string else eval('select(%s)' % src, env))[:]
+            got = sorted((int(a), int(b)) for a, b in rows)
+        except Exception as e:
+            got = 'raised %s: %s' % (type(e).__name__, str(e)[:80])
+        if got != exp:
+            self.fail('two-variables', 'a query with two variables over entities of one hierarchy does not return exactly the pairs of their objects', det, got, exp)
+            return False
+        return True
+
     def navigated_query(self, s, form, as_string):
         """isinstance(x, S) / aggregates where x is reached through a relationship of the holder; ground truth from the stored classes"""
         h, E, H, w = self.h, self.E, self.H, self.w
@@ -650,6 +669,18 @@ NESTED_FORMS = {
 }
 
 
+def two_variables_sweep(ctx, h, db, E, H, w):
+    """every pair of classes of one tree as the two loop variables of one query"""
+    ck = Checker(ctx, h, db, E, H, w); ck.trace.append('two-variables-sweep')
+    k = 0
+    for c1 in range(h['n']):
+        for c2 in range(h['n']):
+            if h['root'][c1] != h['root'][c2]: continue
+            k += 1
+            with db_session:
+                ck.two_variables(c1, c2, as_string=(k % 2 == 0))
+
+
 def cached_lookup_sweep(ctx, h, db, E, H, w):
     """every object of the first tree that a holder references (seed) and every object of the tree (genuine), looked up through every class"""
     ck = Checker(ctx, h, db, E, H, w); ck.trace.append('cached-lookup-sweep')
@@ -753,6 +784,7 @@ def one_world(ctx, h, reqs, checks):
         nested_sweep(ctx, h, db, E, H, w)
         navigated_sweep(ctx, h, db, E, H, w)
         cached_lookup_sweep(ctx, h, db, E, H, w)
+        two_variables_sweep(ctx, h, db, E, H, w)
         refine_tie(ctx, h, db, E, code, w, reqs, checks)
     finally:
         db.disconnect()
